@@ -46,6 +46,11 @@ def int_width_doc_fields():
             ents.append(("p", n))
     # the other integer encodings XTCE names: whatever values the decoder yields for them (it reads them as two's complement), the dataset
     # must hold exactly those values
+    # parameter names are labels: names that mean something to the dataset library (the row dimension is called "packet") are columns like any other
+    for n in ("packet", "dim_0", "index", "coords", "attrs", "dims", "variables", "data_vars", "name", "time", "values"):
+        pts.append(PType(f"NM_{n}_T", "Integer", IntEnc(8)))
+        prs.append(Param(n, f"NM_{n}_T"))
+        ents.append(("p", n))
     for w in (8, 16):
         for enc in ("onesComplement", "signMagnitude", "BCD", "packedBCD"):
             n = f"{enc[:2].upper()}{enc[-1].upper()}{w}"
@@ -195,8 +200,10 @@ def check_dataset(t: Tally, defn, doc, files, stream_pkts, use_raw, case, string
     for apid, pkts in exp.items():
         d = ds[apid]
         names = list(pkts[0].keys())
-        if list(d.data_vars) != names:
-            t.violation({"kind": "variables-differ"}, case, expected=names, observed=list(d.data_vars))
+        # one variable per parameter (a parameter that shares its name with the row dimension is held as that dimension's coordinate variable)
+        got_names = [v for v in d.variables if v in d.data_vars or v in names]
+        if sorted(got_names) != sorted(names) or [v for v in d.data_vars] != [v for v in names if v in d.data_vars] or set(d.variables) - set(names):
+            t.violation({"kind": "variables-differ"}, case, expected=names, observed=list(d.variables))
             continue
         for name in names:
             arr = d[name].values
